@@ -183,7 +183,11 @@ class Interp(object):
 
     def api(self, kind, fn, /, *a, **kw):
         try:
-            return fn(*a, **kw)
+            result = fn(*a, **kw)
+            after = self.opts.get("after_api")
+            if after is not None:
+                after(kind)
+            return result
         except (Abort, HarnessError):
             raise
         except BaseException as e:
